@@ -509,3 +509,98 @@ class Program:
         if body.kind == "closure":
             return self.bodies.get(body.parent)
         return body
+
+
+# ----------------------------------------------------------------------------
+# liveness of locals (used by the abstract interpreter to drop dead temporaries before joins)
+# ----------------------------------------------------------------------------
+def _place_uses(p, out, as_def=False):
+    """locals read by evaluating place p (its base unless it is a plain definition, plus index locals)"""
+    if not as_def or p["proj"]:
+        out.add(p["local"])
+    for e in p["proj"]:
+        if e["k"] == "index":
+            out.add(e["local"])
+
+
+def _operand_uses(o, out):
+    if o.get("k") in ("copy", "move"):
+        _place_uses(o["place"], out)
+
+
+def _rvalue_uses(rv, out, borrowed):
+    k = rv["k"]
+    for key in ("op", "a", "b"):
+        if key in rv and isinstance(rv[key], dict):
+            _operand_uses(rv[key], out)
+    for o in rv.get("ops", ()):
+        _operand_uses(o, out)
+    if "place" in rv:
+        _place_uses(rv["place"], out)
+        if k in ("ref", "rawptr"):
+            p = rv["place"]
+            if not any(e["k"] == "deref" for e in p["proj"]):
+                borrowed.add(p["local"])
+
+
+def body_liveness(body):
+    """-> (live_in: dict bb -> frozenset(locals), borrowed: set(locals))"""
+    n = len(body.blocks)
+    use = [set() for _ in range(n)]
+    dfn = [set() for _ in range(n)]
+    borrowed = set()
+    for b in range(n):
+        u, d = use[b], dfn[b]
+
+        def see_use(tmp):
+            for l in tmp:
+                if l not in d:
+                    u.add(l)
+        for st in body.blocks[b]["stmts"]:
+            if st["k"] == "assign":
+                tmp = set()
+                _rvalue_uses(st["rv"], tmp, borrowed)
+                _place_uses(st["place"], tmp, as_def=True)
+                see_use(tmp)
+                if not st["place"]["proj"]:
+                    d.add(st["place"]["local"])
+            elif st["k"] == "setdiscr":
+                tmp = set()
+                _place_uses(st["place"], tmp)
+                see_use(tmp)
+        t = body.blocks[b]["term"]
+        tmp = set()
+        k = t["k"]
+        if k == "switch":
+            _operand_uses(t["discr"], tmp)
+        elif k == "drop":
+            _place_uses(t["place"], tmp)
+        elif k == "assert":
+            _operand_uses(t["cond"], tmp)
+            for o in t["ops"]:
+                _operand_uses(o, tmp)
+        elif k == "call":
+            _operand_uses(t["func"], tmp)
+            for o in t["args"]:
+                _operand_uses(o, tmp)
+            _place_uses(t["dest"], tmp, as_def=True)
+        elif k == "return":
+            tmp.add(0)
+        see_use(tmp)
+        if k == "call" and not t["dest"]["proj"]:
+            d.add(t["dest"]["local"])
+    live_in = [set() for _ in range(n)]
+    live_out = [set() for _ in range(n)]
+    changed = True
+    order = list(range(n - 1, -1, -1))
+    while changed:
+        changed = False
+        for b in order:
+            lo = set()
+            for s in body.successors(b):
+                lo |= live_in[s]
+            li = use[b] | (lo - dfn[b])
+            if li != live_in[b] or lo != live_out[b]:
+                live_in[b], live_out[b] = li, lo
+                changed = True
+    return {b: frozenset(live_in[b]) for b in range(n)}, borrowed
